@@ -5,26 +5,37 @@ HARNESS_PKG = "h_enc_a"
 HARNESS_ARGS = ["c38"]
 HARNESS_PROCS = 16
 COQ_IMPORTS = "From PV Require Import Model.KeyRegistry Oracle.C38."
-TECHNIQUE = ("Coq proof (invariant over arbitrary operation sequences with the clock as an explicit, arbitrary input) + differential "
-             "correspondence of the Gallina model with the real KeyRegistry against the real clock (lifetimes placed around now, real 1 s waits)")
-LEVEL_TEXT = ("Proved in Coq for every sequence of add_onetime / add_longterm / key_bundle (one-time and long-term) / remove_expired operations with "
-              "arbitrary clock readings between them: C38_never_accept_invalid_onetime/_longterm, C38_rejected_not_stored, "
-              "C38_never_accept_or_return_invalid (everything accepted is valid when accepted, everything returned is valid — lifetime and signature — "
-              "when returned), C38_longterm_is_furthest. The model is the registry after the repair 'fix: skip expired one-time key bundles'; "
-              "C38_never_return_invalid_before_fix_refuted keeps the witness against the code as found. The model is tied to key_registry.rs / lifetime.rs "
-              "/ key_bundle.rs on every run with real XEdDSA signatures (valid and foreign-key) and real time: bundles that are not yet valid, valid, "
-              "expired, and bundles that expire while stored (1-3 real seconds).")
-LEVEL_NOTE = ("Trusted: Coq kernel + vm_compute; hand-written model; XEdDSA abstracted to 'signature verifies or not'; the identities map and its "
-              "assert_eq! sanity check are not modelled (one identity key per member in the runs); the wall clock is read at second granularity and the "
-              "harness re-runs a case whose segment crossed a second boundary; harness/python glue. Correspondence is differential testing.")
+TECHNIQUE = ("Coq proof (over ARBITRARY registry states and arbitrary operation sequences with the clock as an explicit, arbitrary input) + differential "
+             "correspondence of the Gallina model with the real KeyRegistry against the real clock (lifetimes placed around now, real 1 s waits, "
+             "identical bundles registered again, registry states restored through serde)")
+LEVEL_TEXT = ("Proved in Coq from ANY registry state (not only states built by add_*) and for every sequence of add_onetime / add_longterm / key_bundle "
+              "(one-time and long-term) / remove_expired / restore-a-member's-list operations with arbitrary clock readings between them: "
+              "C38_never_accept_invalid_onetime/_longterm, C38_rejected_not_stored, C38_never_accept_or_return_invalid (everything accepted is valid "
+              "when accepted, everything returned is valid — lifetime and signature — when returned), C38_get_valid_from_any_state + "
+              "C38_get_returns_stored (the getters over arbitrary stored lists), C38_readd_requires_valid (an already stored bundle is accepted again "
+              "only if valid at that time, then the registry is unchanged; otherwise rejected), C38_longterm_is_furthest. The model is the registry after "
+              "the repairs 'fix: skip expired one-time key bundles' and 'fix: latest_key_bundle verifies the whole key bundle'; "
+              "C38_never_return_invalid_before_fix_refuted and C38_longterm_from_any_state_before_fix_refuted (+ _outside_known) keep the witnesses "
+              "against the code as found. The model is tied to key_registry.rs / lifetime.rs / key_bundle.rs on every run with real XEdDSA signatures "
+              "(valid and foreign-key) and real time: bundles that are not yet valid, valid, expired, bundles that expire while stored (1-3 real "
+              "seconds), the identical bundle registered again before/at/after its expiry, and registry states restored from CBOR bytes holding "
+              "arbitrary mixes of such bundles in arbitrary order.")
+LEVEL_NOTE = ("Trusted: Coq kernel + vm_compute; hand-written model; XEdDSA abstracted to 'signature verifies or not'; bundle equality (derived PartialEq) "
+              "modelled as 'same pool entry'; the identities map and its IdentityKeyMismatch check are not modelled (one identity key per member in the "
+              "runs); the wall clock is read at second granularity and the harness re-runs a case whose segment crossed a second boundary; "
+              "harness/python glue. Correspondence is differential testing.")
 ASSUMPTIONS = ["XEdDSA verification is a function of (pre-key bytes, identity key, signature); a signature made with a different secret does not verify",
-               "one identity key per member id (the registry asserts this)",
+               "one identity key per member id (the registry rejects a second one)",
                "correspondence runs: the wall clock advances by one second per harness wait (checked, case re-run otherwise)"]
-TRUSTED = ["modelled not verified: XEdDSA, SystemTime, HashMap/Vec"]
-RULE = ("each case: up to 6 bundles with lifetimes (T0+a, T0+b), a/b in -3..+4 around the real clock (boundaries a = 0, b = 0, b = 1 included: both ends are strict), "
-        "valid or foreign signatures, 1-3 members; random sequences of add one-time / add long-term / fetch one-time / fetch long-term / remove_expired; "
-        "quick: 400 cases without waiting + 48 cases with 1-3 real one-second waits (bundles expire while stored); thorough: 4000 + 320. "
-        "non-trivial = at least one bundle accepted and at least one rejected or skipped/expired at fetch time")
+TRUSTED = ["modelled not verified: XEdDSA, derived PartialEq of bundles, SystemTime, HashMap/Vec, serde"]
+RULE = ("each case: up to 6 bundles with lifetimes (T0+a, T0+b), a/b around the real clock (boundaries a = 0, b = 0, b = 1 included: both ends are strict; "
+        "not-yet-valid bundles with expiries up to +3600), valid or foreign signatures, 1-3 members; (i) random sequences of add one-time / add long-term "
+        "(the identical bundle may be added again) / fetch one-time / fetch long-term / remove_expired / count; (ii) re-registration histories: a bundle "
+        "registered while valid and registered again before, at and after its expiry; (iii) restored states: a member's one-time / long-term Vec replaced "
+        "through the serde representation (CBOR bytes) by an arbitrary list of pool bundles, then getters/adds/remove_expired. "
+        "quick: 240 + 50 + 250 cases without waiting and 32 + 24 + 16 cases with 1-3 real one-second waits; thorough: 3000 + 600 + 3000 and 240 + 160 + 120. "
+        "non-trivial = a bundle accepted and one rejected/skipped/expired and one returned (random); a re-add plus an answer (re-registration); "
+        "a restored list of >= 2 bundles and a getter answer (restored)")
 NONTRIVIAL_FLOOR = 20
 
 
@@ -60,7 +71,7 @@ def _case(rng, waits):
         if c < 0.45:
             kind = rng.choice(["ao", "ao", "al"])
             m, k = rng.randrange(members), rng.randrange(nb)
-            if (kind, m, k) in added:
+            if (kind, m, k) in added and rng.random() < 0.6:
                 continue
             added.add((kind, m, k))
             ops.append("%s:%d:%d" % (kind, m, k))
@@ -70,6 +81,8 @@ def _case(rng, waits):
             ops.append("gl:%d" % rng.randrange(members))
         elif c < 0.87:
             ops.append("rx")
+        elif c < 0.91:
+            ops.append("cn:%d" % rng.randrange(members))
         elif w < waits:
             ops.append("w")
             w += 1
@@ -82,6 +95,93 @@ def _case(rng, waits):
     return {"pool": pool, "ops": ops}
 
 
+def _readd_case(rng, waits):
+    """One bundle registered while valid and registered again (the identical bundle) at later times:
+    before its expiry, in the second it expires, after it."""
+    end = rng.randint(1, 3) if waits else rng.choice([1, 2, 5, 60])
+    pool = [[rng.randint(-4, -1), end, 1], [rng.randint(-4, -1), rng.choice([1, 2, 3, 60]), 1]]
+    if rng.random() < 0.4:
+        pool.append([rng.randint(-4, -1), rng.randint(1, 3), 0])
+    m = rng.randrange(2)
+    ops = ["al:%d:0" % m]
+    if rng.random() < 0.7:
+        ops.append("ao:%d:0" % m)
+    if rng.random() < 0.5:
+        ops.append("al:%d:%d" % (m, rng.randrange(len(pool))))
+    if rng.random() < 0.5:
+        ops += ["al:%d:0" % m, "cn:%d" % m]
+    for _ in range(waits):
+        ops.append("w")
+        ops.append("al:%d:0" % m)
+        if rng.random() < 0.5:
+            ops.append("ao:%d:0" % m)
+        if rng.random() < 0.4:
+            ops.append("gl:%d" % m)
+    ops += ["cn:%d" % m, "gl:%d" % m, "go:%d" % m, "go:%d" % m]
+    if rng.random() < 0.3:
+        ops += ["rx", "al:%d:0" % m, "cn:%d" % m]
+    return {"pool": pool, "ops": ops}
+
+
+def _restored_case(rng, waits):
+    """Registry state restored from persistence: arbitrary mixes of valid / expired / not-yet-valid /
+    foreign-signature bundles in arbitrary list order, then the getters at the current time."""
+    nb = rng.randint(2, 6)
+    pool = []
+    for _ in range(nb):
+        kind = rng.random()
+        if kind < 0.3:       # not yet valid, usually with a late expiry
+            a = rng.randint(0, 3)
+            b = a + rng.choice([0, 1, 2, 5, 60, 3600])
+        elif kind < 0.5:     # already expired
+            b = rng.randint(-3, 0)
+            a = b - rng.randint(0, 4)
+        else:                # valid now (added "slightly in the past")
+            a = rng.randint(-4, -1)
+            b = rng.randint(1, 5) if waits else rng.choice([1, 2, 3, 5, 60])
+        pool.append([a, b, 0 if rng.random() < 0.15 else 1])
+    members = rng.randint(1, 2)
+    ops = []
+
+    def restore(kind, m):
+        ks = [rng.randrange(nb) for _ in range(rng.randint(0, min(nb + 1, 5)))]
+        if rng.random() < 0.7:
+            ks = list(dict.fromkeys(ks))
+        return "%s:%d:%s" % (kind, m, ".".join(map(str, ks)))
+
+    m = rng.randrange(members)
+    if rng.random() < 0.4:   # something registered the regular way first
+        k = rng.randrange(nb)
+        ops.append("%s:%d:%d" % (rng.choice(["al", "ao"]), m, k))
+    ops.append(restore("sl", m))
+    if rng.random() < 0.7:
+        ops.append(restore("so", m))
+    w = 0
+    for _ in range(rng.randint(3, 9)):
+        c = rng.random()
+        mm = m if rng.random() < 0.8 else rng.randrange(members)
+        if c < 0.3:
+            ops.append("gl:%d" % mm)
+        elif c < 0.55:
+            ops.append("go:%d" % mm)
+        elif c < 0.65:
+            ops.append("cn:%d" % mm)
+        elif c < 0.75:
+            ops.append("%s:%d:%d" % (rng.choice(["al", "al", "ao"]), mm, rng.randrange(nb)))
+        elif c < 0.8:
+            ops.append("rx")
+        elif c < 0.87:
+            ops.append(restore(rng.choice(["sl", "so"]), mm))
+        elif w < waits:
+            ops.append("w")
+            w += 1
+    while w < waits:
+        ops += ["w", "gl:%d" % m, "go:%d" % m]
+        w += 1
+    ops += ["gl:%d" % m, "cn:%d" % m]
+    return {"pool": pool, "ops": ops}
+
+
 def gen(tier, rng):
     quick = tier == "quick"
     # the design-phase witness shapes: valid for 2 s, fetched after 3 s
@@ -89,10 +189,18 @@ def gen(tier, rng):
     yield {"pool": [[-1, 2, 1], [-1, 9, 1]], "ops": ["ao:0:1", "ao:0:0", "al:0:0", "w", "w", "go:0", "gl:0", "go:0", "go:0"]}
     yield {"pool": [[-1, 1, 1]], "ops": ["ao:0:0", "al:0:0", "go:0", "gl:0"]}
     yield {"pool": [[0, 5, 1], [-1, 0, 1], [-1, 1, 0]], "ops": ["ao:0:0", "ao:0:1", "ao:0:2", "al:0:0", "al:0:1", "al:0:2", "go:0", "gl:0"]}
-    for _ in range(400 if quick else 4000):
+    for _ in range(240 if quick else 3000):
         yield _case(rng, 0)
-    for _ in range(48 if quick else 320):
+    for _ in range(50 if quick else 600):
+        yield _readd_case(rng, 0)
+    for _ in range(250 if quick else 3000):
+        yield _restored_case(rng, 0)
+    for _ in range(32 if quick else 240):
         yield _case(rng, rng.randint(1, 3))
+    for _ in range(24 if quick else 160):
+        yield _readd_case(rng, rng.randint(1, 3))
+    for _ in range(16 if quick else 120):
+        yield _restored_case(rng, rng.randint(1, 2))
 
 
 def harness_line(case):
@@ -124,6 +232,15 @@ def _ops(case):
             out.append("GetLT %d%%N %s%%N" % (t, f[1]))
         elif f[0] == "rx":
             out.append("RemoveExpired %d%%N" % t)
+        elif f[0] in ("so", "sl"):
+            # harness list is in push order; the model keeps a member's Vec newest-first
+            ks = [int(x) for x in f[2].split(".") if x] if len(f) > 2 else []
+            out.append("%s %d%%N %s%%N [%s]" % ("SetOT" if f[0] == "so" else "SetLT", t, f[1],
+                                               ";".join(_bundle(case, k) for k in reversed(ks))))
+        elif f[0] == "cn":
+            out.append("Count %d%%N %s%%N" % (t, f[1]))
+        else:
+            raise ValueError(op)
     return "[" + ";".join(out) + "]"
 
 
@@ -140,22 +257,45 @@ def coq_oracle(case, impl):
             obs.append("OR")
         elif t == "G-":
             obs.append("(OG None true)")
-        elif t.startswith("G"):
+        elif t.startswith("G") and t[1:2].isdigit():
             k, _, v = t[1:].partition(":")
             obs.append("(OG (Some %d%%N) %s)" % (int(k), "true" if v == "ok" else "false"))
         elif t == "E":
             obs.append("OE")
         elif t == "D":
             obs.append("OD")
+        elif t.startswith("N"):
+            obs.append("ON")
         else:
             raise ValueError(t)
     pool = "[" + ";".join(_bundle(case, k) for k in range(len(case["pool"]))) + "]"
     return "check %s %s [%s]" % (pool, _ops(case), ";".join(obs))
 
 
+def _restored(case):
+    return any(o.startswith(("so:", "sl:")) for o in case["ops"])
+
+
+def _readds(case):
+    """number of add operations that register a (member, bundle) pair registered before"""
+    seen, n = set(), 0
+    for o in case["ops"]:
+        if o.startswith(("ao:", "al:")):
+            n += o in seen
+            seen.add(o)
+    return n
+
+
 def nontrivial(case, impl):
     toks = impl.split()
-    return "A" in toks and any(t in ("RL", "RS", "E") or t == "G-" for t in toks) and any(t.startswith("G") and t != "G-" for t in toks)
+    skipped = any(t in ("RL", "RS", "E") or t == "G-" for t in toks)
+    got = any(t.startswith("G") and t != "G-" for t in toks)
+    if _restored(case):
+        # a restored list with more than one bundle, and the getters both answered and refused
+        return any(o.startswith(("so:", "sl:")) and "." in o for o in case["ops"]) and (got or skipped)
+    if _readds(case):
+        return "A" in toks and (got or skipped)
+    return "A" in toks and skipped and got
 
 
 def shrink(case):
@@ -168,8 +308,11 @@ def distribution(cases, impl):
     cnt = {}
     for v in impl.values():
         for t in v.split():
-            k = "G<k>" if t.startswith("G") and t != "G-" else t
+            k = "G<k>" if t.startswith("G") and t != "G-" else ("N<a>/<b>" if t.startswith("N") else t)
             cnt[k] = cnt.get(k, 0) + 1
-    return {"answers": cnt, "cases_with_real_waits": sum(1 for c in cases if "w" in c["ops"]),
+    return {"answers": cnt, "cases_with_restored_state": sum(1 for c in cases if _restored(c)),
+            "cases_re_adding_an_identical_bundle": sum(1 for c in cases if _readds(c)),
+            "identical_re_adds_after_a_wait": sum(1 for c in cases if _readds(c) and "w" in c["ops"]),
+            "cases_with_real_waits": sum(1 for c in cases if "w" in c["ops"]),
             "waits_total_seconds": sum(c["ops"].count("w") for c in cases),
             "bundles_with_foreign_signature": sum(1 for c in cases for b in c["pool"] if not b[2])}
